@@ -93,6 +93,7 @@ class Run:
         self.decls = []
         self.decoy_seed = None
         self.traits = {}
+        self.objev = {}
         meths = set()
         for ln in lines:
             t = ln.split()
@@ -111,6 +112,10 @@ class Run:
             elif t[0] == 'obj':
                 d = dict(x.split('=', 1) for x in t[2:])
                 self.decls.append(('obj', int(t[1]), int(d['class']), d.get('hash')))
+                if 'ev' in d:
+                    # an __events__ mapping stored on the instance itself
+                    self.objev[int(t[1])] = dict(p.split(':') for p in split_list(d['ev']))
+                    meths.update(self.objev[int(t[1])].values())
             elif t[0] == 'react':
                 assert t[4] == ':'
                 self.reactions[(int(t[1]), t[2], int(t[3]))] = parse_ops(t[5:])
@@ -226,6 +231,8 @@ class Run:
         o = self.classes[cid]()
         o._oid = oid
         o._h = int(h) if h is not None else id(o) >> 4
+        if oid in self.objev:
+            o.__events__ = dict(self.objev[oid])
         self.objs[oid] = o
 
     def parse_extra(self, t):
